@@ -230,3 +230,11 @@ static inline void h_sentinel_finish(h_sentinel_t * s) {
   myth_join(s->th, 0);
   MV_CHECK(s->returned && !s->early, "the thread blocked on the second object did not come back after that object was released");
 }
+
+/* ---- bystanders: a thread that has nothing to do with the object under test and just yields until the program is over.  Its presence
+   means that a yield inside the primitive really switches threads and that the worker always has something else to run.  A quarter of
+   the two-worker programs get one (prog % 4 == 1). ---- */
+typedef struct { volatile int stop, rounds; myth_thread_t th; int on; } h_bystander_t;
+static void * h_bystander_body(void * a) { h_bystander_t * b = (h_bystander_t *)a; while (!b->stop) { b->rounds++; mv_wait_until_changed(&b->stop, sizeof(int)); } return 0; }
+static inline void h_bystander_start(h_bystander_t * b, int prog, int W) { b->stop = 0; b->rounds = 0; b->on = (W >= 2 && prog % 4 == 1); if (b->on) b->th = myth_create(h_bystander_body, b); }
+static inline void h_bystander_finish(h_bystander_t * b) { if (!b->on) return; mv_point(&b->stop, sizeof(int)); b->stop = 1; myth_join(b->th, 0); }
